@@ -6,7 +6,8 @@
     * both files are accepted as ONE Stream that is the WHOLE file (`consumed = length`; without this a damaged Block can end the
       Stream early in place, see Props/C05.lean);
     * the Check is a supported one other than None and LZMA_IGNORE_CHECK is off.
-  Then the outputs are equal, or two different outputs have the same Check value.
+  Then the outputs are equal, or some Block of `b` and the same Block of `b'` decode to different outputs with the same Check
+  value (`BlockCollision`, tied to the two files).
   The unchanged Stream Footer pins the Index (same place, same bytes ⇒ same Records, `indexEncode_injective`), the Records pin
   every Block boundary, and each Block's unchanged Check field then relates the two outputs.
   Kernel proofs, core Lean only.
@@ -16,8 +17,30 @@ import XzVerif.Lemmas.XzComplete
 namespace XzVerif.XzDecode
 open XzVerif XzVerif.Vli XzVerif.Container
 
-/-- two different byte strings with the same Check value -/
-def Collision (E : Env) (check : Nat) : Prop := ∃ o o' : List UInt8, o ≠ o' ∧ E.check check o = E.check check o'
+/-- `BlockAt E fl hdr inp cap i c o`: in the declarative walk over the Blocks that starts at `inp` (a Block Header) with `cap`
+    bytes of output space, Block number `i` (from 0) has Compressed Data `c`, and `c` decodes to `o` (`DBlock`: payload verdict,
+    size fields, Block Padding, and the Block's Check field equals `E.check id o` when the ID is supported). -/
+inductive BlockAt (E : Env) (fl : Flags) (hdr : StreamFlags) : List UInt8 → Nat → Nat → List UInt8 → List UInt8 → Prop
+  | here (inp : List UInt8) (cap : Nat) (b0 : UInt8) (tl : List UInt8) (h : BlockHeader) (c o pad chk rest : List UInt8) :
+      inp = (b0 :: tl) ++ c ++ pad ++ chk ++ rest → b0.toNat ≠ 0 →
+      blockHeaderDecodeWith (b0 :: tl).length hdr.check (b0 :: tl) = .ok h →
+      DBlock E hdr.check fl.ignoreCheck h cap c o pad chk →
+      BlockAt E fl hdr inp cap 0 c o
+  | later (inp : List UInt8) (cap : Nat) (b0 : UInt8) (tl : List UInt8) (h : BlockHeader) (c0 o0 pad chk rest : List UInt8)
+      (i : Nat) (c o : List UInt8) :
+      inp = (b0 :: tl) ++ c0 ++ pad ++ chk ++ rest → b0.toNat ≠ 0 →
+      blockHeaderDecodeWith (b0 :: tl).length hdr.check (b0 :: tl) = .ok h →
+      DBlock E hdr.check fl.ignoreCheck h cap c0 o0 pad chk →
+      BlockAt E fl hdr rest (cap - o0.length) i c o →
+      BlockAt E fl hdr inp cap (i + 1) c o
+
+/-- A Check collision TIED TO THE TWO FILES: the same Block number `i` of `inp` and of `inp'` has Compressed Data `cB` resp. `cB'`
+    (same length) decoding to DIFFERENT outputs `oB ≠ oB'` with the SAME Check value.  (Not to be confused with the closed
+    statement "some two byte strings collide", which is true of every fixed-size Check.) -/
+def BlockCollision (E : Env) (fl : Flags) (hdr : StreamFlags) (inp inp' : List UInt8) (cap : Nat) : Prop :=
+  ∃ (i : Nat) (cB cB' oB oB' : List UInt8),
+    BlockAt E fl hdr inp cap i cB oB ∧ BlockAt E fl hdr inp' cap i cB' oB' ∧ cB.length = cB'.length ∧
+    oB ≠ oB' ∧ E.check hdr.check oB = E.check hdr.check oB'
 
 /-- `inp'` is `inp` with the Compressed Data of its Blocks (as parsed declaratively) replaced by other bytes of the same length -/
 inductive PayloadDamage (E : Env) (fl : Flags) (hdr : StreamFlags) :
@@ -95,7 +118,8 @@ theorem damage_blocks (E : Env) (fl : Flags) (hdr : StreamFlags) (hck : hdr.chec
     (hsup : E.checkSupported hdr.check = true) (hign : fl.ignoreCheck = false)
     {blocks : HashInfo} {inp inp' : List UInt8} {cap : Nat} {out : List UInt8} {c : Nat} {final : HashInfo}
     (r : PayloadDamage E fl hdr blocks inp inp' cap out c final) :
-    ∀ (out2 : List UInt8) (c2 : Nat), DBlocks E fl hdr blocks inp' cap out2 c2 final → out2 = out ∨ Collision E hdr.check := by
+    ∀ (out2 : List UInt8) (c2 : Nat), DBlocks E fl hdr blocks inp' cap out2 c2 final →
+      out2 = out ∨ BlockCollision E fl hdr inp inp' cap := by
   induction r with
   | done blocks inp cap =>
     intro out2 c2 r'
@@ -151,17 +175,21 @@ theorem damage_blocks (E : Env) (fl : Flags) (hdr : StreamFlags) (hck : hdr.chec
         simpa only [List.append_assoc] using er2
       have er3 := List.append_cancel_left hsplit3
       obtain ⟨echk, erest'⟩ := List.append_inj er3 (by rw [hD.chk_len, hD'.chk_len])
-      subst echk erest'
+      subst echk erest' ecd
       -- the unchanged Check field relates the two outputs
       have k1 := hD.chk_ok hck hign hsup
       have k2 := hD'.chk_ok hck hign hsup
+      have hA : ∀ i cB oB, BlockAt E fl hdr rest (cap - o.length) i cB oB → BlockAt E fl hdr inp cap (i + 1) cB oB :=
+        fun i cB oB hb => BlockAt.later inp cap b0' tl h c o pad2 chk rest i cB oB hinp hb0 hh hD hb
       by_cases heq : o2 = o
       · subst heq
         rw [hcl] at hsub'
-        rcases ih _ _ hsub' with h1 | h1
+        rcases ih _ _ hsub' with h1 | ⟨i, cB, cB', oB, oB', a1, a2, a3, a4, a5⟩
         · left; rw [ho2, h1]
-        · exact Or.inr h1
-      · exact Or.inr ⟨o2, o, heq, by rw [← k1, ← k2]⟩
+        · exact Or.inr ⟨i + 1, cB, cB', oB, oB', hA i cB oB a1,
+            BlockAt.later inp' cap b0' tl h cx o2 pad2 chk rest' i cB' oB' hinp' hb0 hh hD' a2, a3, a4, a5⟩
+      · exact Or.inr ⟨0, c, cx, o, o2, BlockAt.here inp cap b0' tl h c o pad2 chk rest hinp hb0 hh hD,
+          BlockAt.here inp' cap b0' tl h cx o2 pad2 chk rest' hinp' hb0 hh hD', hcx.symm, fun e => heq e.symm, by rw [← k1, ← k2]⟩
 
 theorem drop_drop' {α : Type} (l : List α) (a b : Nat) : (l.drop a).drop b = l.drop (a + b) := by
   first | rw [List.drop_drop] | rw [List.drop_drop, Nat.add_comm]
@@ -186,13 +214,14 @@ def FileDamage (E : Env) (fl : Flags) (b b' : List UInt8) (cap : Nat) (hdr : Str
     b.length = STREAM_HEADER_SIZE + c + s.consumed
 
 /-- **payload_damage_needs_collision, whole file.** -/
-theorem payload_damage_whole (E : Env) (hloc : PayloadLocal E) (hbd : PayloadBounded E) (fl : Flags)
+theorem payload_damage_tethered (E : Env) (hloc : PayloadLocal E) (hbd : PayloadBounded E) (fl : Flags)
     (hnc : fl.concatenated = false) (hign : fl.ignoreCheck = false) (b b' : List UInt8) (cap : Nat)
     (hdr : StreamFlags) (out : List UInt8) (hdmg : FileDamage E fl b b' cap hdr out)
     (hck : hdr.check ≠ 0) (hsup : E.checkSupported hdr.check = true)
     (hr' : (xzDecode E fl b' cap).ret = .streamEnd) (hall' : (xzDecode E fl b' cap).consumed = b'.length) :
     ((xzDecode E fl b cap).ret = .streamEnd ∧ (xzDecode E fl b cap).out = out ∧ (xzDecode E fl b cap).consumed = b.length)
-    ∧ ((xzDecode E fl b' cap).out = out ∨ Collision E hdr.check) := by
+    ∧ ((xzDecode E fl b' cap).out = out
+        ∨ BlockCollision E fl hdr (b.drop STREAM_HEADER_SIZE) (b'.drop STREAM_HEADER_SIZE) cap) := by
   obtain ⟨c, final, s, hl, htk, hh, hpd, hF, hlen⟩ := hdmg
   -- `b` is accepted with output `out` (completeness)
   have hV : DValidXz E fl b cap out b.length :=
